@@ -104,7 +104,10 @@ let op_dsl_eval a =
   List.iter emit lines
 
 let hostile_want a = "hostile " ^ str a "want" "ok" ^ (if has a "show" then " " ^ hex_dec (str a "show" "-") else "")
-let hostile_expected a = if str a "expect" "ok" = "crash" then "CRASH" else if has a "want" then hostile_want a else "hostile ok"
+let hostile_expected a =
+  if str a "expect" "ok" = "crash" then "CRASH"
+  else if has a "bad" then hex_dec (str a "bad" "-")      (* a recorded wrong-outcome finding: on the unchanged tree it reproduces *)
+  else if has a "want" then hostile_want a else "hostile ok"
 let op_dsl_hostile a = emit (hostile_expected a)
 let op_dsl_syntax a = emit (Printf.sprintf "syntax %s:%s" (str a "line" "0") (str a "col" "0"))
 
@@ -139,7 +142,7 @@ let oracle_c15 script trace =
     | Some ("dsl_hostile", a) ->
       let l = take () in
       if is_bad_line l then fail (Printf.sprintf "step=%d crash hostile tag=%s mode=%s impl=%s" li (str a "tag" "none") (str a "mode" "main") (List.hd (toks_of l)))
-      else if has a "bad" && l = "hostile value " ^ hex_dec (str a "bad" "-") then
+      else if has a "bad" && l = hex_dec (str a "bad" "-") then
         (* a recorded wrong-value finding: the reproducer still yields the value the language reference does not define *)
         fail (Printf.sprintf "step=%d known-wrong-value tag=%s got=%s" li (str a "tag" "none") l)
       else if has a "want" && l <> hostile_want a then
